@@ -21,9 +21,33 @@ PROFILE = {"hyperlink": 0.0, "vmerge": 0.0, "point_comment": 0.0, "field": 0.0, 
 PROFILES = {"default": PROFILE,
             "redlined": dict(PROFILE, **{"del": 0.35, "blocks": (1, 3), "runs": (3, 7)}, ins=0.25, subst=0.15, split_identical=0.3,
                              table=0.1, comment=0.2),
-            "formatted": dict(PROFILE, fmt=0.8, split_identical=0.4, heading=0.25, table=0.3, tab=0.2, br=0.1)}
+            "formatted": dict(PROFILE, fmt=0.8, split_identical=0.4, heading=0.25, table=0.3, tab=0.2, br=0.1),
+            # long paragraphs with many pending deletions, three edits in one paragraph: targets that bridge deletions
+            # (found only in the accepted view) next to targets found in the raw text
+            "bridges": dict(PROFILE, **{"del": 0.45, "blocks": (1, 2), "runs": (6, 10)}, ins=0.0, subst=0.05, table=0.0,
+                            comment=0.0, split_identical=0.15, fmt=0.2, header=0.0, footer=0.0),
+            # the same phrase once in typographic and once in straight quotes
+            "quotes": dict(PROFILE, blocks=(2, 4), table=0.1)}
 KINDS = ["replace", "replace", "delete", "extend", "prefix", "shared", "shared", "markdown", "literal", "same"]
 EDIT_RE = re.compile(r"\[Edit:(\d+)\]$")
+
+
+def add_quoted_pair(rng, doc):
+    """appends a paragraph `… “W V” … "W V" …` to the body; -> an edit on the straight-quoted phrase (exact, unique)"""
+    w = rng.choice(["Effective Date", "Closing", "Seller Group", "the Premises"])
+    new = rng.choice(["Start Date", "Completion", "Buyer Group"])
+    f = {"b": None, "i": None, "rest": ""}
+    text = f"in this Agreement “{w}” means the date; \"{w}\" is used below"
+    doc["body"].append({"p": {"style": None, "ppr": "", "nodes": [{"k": "r", "run": {**f, "ch": [{"k": "t", "s": text}]}}]}})
+    pi = sum(1 for _ in sem.all_paragraphs(doc)) - 1
+    # position of the paragraph among all paragraphs: the body comes after the headers in all_paragraphs? look it up
+    for idx, (si, p) in enumerate(sem.all_paragraphs(doc)):
+        if p is doc["body"][-1]["p"]:
+            pi = idx
+    a = text.index('"' + w)
+    tgt = '"' + w + '"'
+    return {"si": 0, "pi": pi, "a": a, "b": a + len(tgt), "target": tgt, "new": '"' + new + '"', "kind": "replace", "comment": None,
+            "in_raw": True, "over_del": False, "state": "plain", "locatable": True}
 
 
 def strip_markers(s):
@@ -39,11 +63,19 @@ def work(case):
         case = dict(case, doc=doc, features=feats)
     else:
         rng = random.Random(case.get("index", 0))
+    quoted = None
+    if case.get("stream") == "quotes" and "edits" not in case:
+        quoted = add_quoted_pair(rng, case["doc"])
     data = ooxml.write_docx(case["doc"])
     texts = engine_run.texts_of(data)
     edits = case.get("edits")
     if edits is None:
-        edits = editgen.gen_batch(rng, case["doc"], texts, rng.randint(1, 3), KINDS, comment_p=0.3)
+        if case.get("stream") == "bridges":
+            edits = editgen.gen_batch(rng, case["doc"], texts, 3, KINDS, comment_p=0.2, same_para_bias=1.0)
+        else:
+            edits = editgen.gen_batch(rng, case["doc"], texts, rng.randint(1, 3), KINDS, comment_p=0.3)
+        if quoted and texts["clean"].count(quoted["target"]) == 1 and texts["raw"].count(quoted["target"]) == 1:
+            edits = [e for e in edits if e["pi"] != quoted["pi"]] + [quoted]
     out = {"case": dict(case, edits=edits), "err": None, "clean": texts["clean"]}
     try:
         des = [DocumentEdit(target_text=e["target"], new_text=e["new"], comment=e.get("comment")) for e in edits]
@@ -128,7 +160,8 @@ def nontrivial(res):
 def run(tier, seed, driver_ok):
     return doccheck.run_doc_check(
         "C15", tier, seed, driver_ok, n_quick=300, n_thorough=5000,
-        profiles=[("default", PROFILES["default"], 2), ("redlined", PROFILES["redlined"], 2), ("formatted", PROFILES["formatted"], 1)],
+        profiles=[("default", PROFILES["default"], 2), ("redlined", PROFILES["redlined"], 2), ("formatted", PROFILES["formatted"], 1),
+                  ("bridges", PROFILES["bridges"], 2), ("quotes", PROFILES["quotes"], 1)],
         work=work, oracle=oracle, driver_line=driver_line, compare=compare, classify=classify, nontrivial=nontrivial,
         rule=("generated documents (plain, redlined with pending insertions/deletions/comments, heavily formatted) x batches of "
               "1..3 exact, unique, non-overlapping single-line edits (replace, delete, extend, prefix, shared context, "
